@@ -27,7 +27,7 @@ SPEC = {
                 {'name': 'c01_csr_record_no_attr', 'file': ACC, 'timeout': 1800, 'unwindset': {'Csr::new': 3, 'ConvertVec>::to_vec': 4, 'simd_bitmask': 17, r'drop_glue::<\[': 4, 'swap_nonoverlapping': 8},
                  'bounds': '5 key types x 3 digests, any key identity, 2 DNS names + 1 IP (symbolic 1-byte values), no subject attribute',
                  'asserts': 'CSR pubkey == signer == given key; digest as configured (none for EdDSA); SAN = given names in order; empty subject'},
-                {'name': 'c01_csr_record_one_attr', 'file': ACC, 'timeout': 1800, 'unwindset': {'Csr::new': 3, 'ConvertVec>::to_vec': 4, 'simd_bitmask': 17, r'drop_glue::<\[': 4, 'swap_nonoverlapping': 8},
+                {'name': 'c01_csr_record_one_attr', 'file': ACC, 'timeout': 1800, 'unwindset': {'Csr::new': 3, 'ConvertVec>::to_vec': 3, 'simd_bitmask': 17, r'drop_glue::<\[': 3, 'swap_nonoverlapping': 8},
                  'bounds': 'same with one subject attribute (organization_name)', 'asserts': 'same + the subject carries exactly that attribute'},
             ],
         },
